@@ -265,9 +265,11 @@ class Report:
             "coverage": self.coverage, "assumptions": self.assumptions,
             "wall_s": round(time.time() - self.t0, 2), "violations": len(self.violations),
         }
-        os.makedirs(os.path.join(VERIF, "evidence"), exist_ok=True)
-        with open(os.path.join(VERIF, "evidence", self.prop + ".json"), "w") as f:
-            json.dump(ev, f, indent=1, ensure_ascii=True)
+        # a replay of one stored case is not a run of the check: it must not overwrite the evidence of the last run
+        if not getattr(self, "is_replay", False):
+            os.makedirs(os.path.join(VERIF, "evidence"), exist_ok=True)
+            with open(os.path.join(VERIF, "evidence", self.prop + ".json"), "w") as f:
+                json.dump(ev, f, indent=1, ensure_ascii=True)
         for k in self.known_lines:
             print("KNOWN-FINDING: property=%s %s" % (self.prop, k))
         for p, suffix in self.violations[:20]:
